@@ -8,6 +8,7 @@ grids with the query in every order relation to the nodes: the bisection may onl
 query with node values (a comparison against an arithmetic combination of node values is only
 meaningful for uniform grids and is reported), must return i<=nx-2 with x_i<=x<=x_{i+1}, and must
 reject x outside [x_first,x_last] on both sides."""
+from guarded import same, explain
 from astdb import AnalysisBroken
 from interp import Interp, Obj, Cell, Ptr, Region, Thrown, Unsupported, Opaque, ITE, Cond
 from poly import Poly, apply_func, atom_arg, atom_of
@@ -53,7 +54,7 @@ def check_formulas(db, rep):
                     if scale == 'linear':
                         want = a + (b - a) * frac
                         got = xs[k]
-                        ok = isinstance(got, Poly) and got.equals(want)
+                        ok = same(got, want)
                     else:
                         la, lb = apply_func('log', a), apply_func('log', b)
                         wantarg = la + (lb - la) * frac
